@@ -21,7 +21,8 @@ from . import world
 from .harness import h64
 from .renderables import classes
 
-TERM = (8, 6)        # terminal size relative paddings are resolved against
+TERM = (8, 6)        # terminal size relative paddings are resolved against (at the start of every history)
+TERM2 = (6, 5)       # the other size of the ("term", cols, rows) resize operation
 SIZE0 = (2, 2)       # render size of the harness renderable
 DUR0 = 100
 
@@ -40,8 +41,15 @@ GLYPHS = "abcdefghijklmnopqrstuvwxyzABCDEFGHIJKLMNOPQRSTUVWXYZ"
 
 
 # ------------------------------------------------------------------------------ the model
+def dur_shift(dur):
+    """The harness renderable lets the duration SETTING show in the output (the library re-renders on a duration
+    change precisely because 'frame duration may affect the render output of some renderables')."""
+    return 3 if dur == "DYN" else dur % 5
+
+
 def ref_text(k, size, tag):
-    """What the harness renderable documents for frame k: cell (x, y) = GLYPHS[(7k + y*w + x + tag) % 52]."""
+    """What the harness renderable documents for frame k: cell (x, y) = GLYPHS[(7k + y*w + x + tag) % 52]
+    (tag = render-args tag + dur_shift(duration setting))."""
     w, h = size
     return "\n".join("".join(GLYPHS[(k * 7 + y * w + x + tag) % 52] for x in range(w)) for y in range(h))
 
@@ -87,21 +95,25 @@ class Model:
         self.dur = cfg["dur0"]
         self.size = SIZE0
         self.tag = 0
-        self.pad = ref_resolve(cfg["pad0"])
+        self.term = TERM
+        self.pad = ref_resolve(cfg["pad0"], self.term)
 
     def canon(self):
         return (self.closed, self.loop, self.nxt, self.pending, self.first, self.stream_pos,
-                self.dur, self.size, self.tag, self.pad)
+                self.dur, self.size, self.tag, self.pad, self.term)
 
     def frame(self, k):
         dur = 10 + k if self.dur == "DYN" else self.dur
-        out, psize = ref_pad(ref_text(k, self.size, self.tag), self.size, self.pad)
+        out, psize = ref_pad(ref_text(k, self.size, self.tag + dur_shift(self.dur)), self.size, self.pad)
         return ("frame", k, dur, psize, out)
 
     def apply(self, op):
         kind = op[0]
         if kind == "next":
             return self.next()
+        if kind == "term":                                 # the terminal is resized: nothing happens to the
+            self.term = (op[1], op[2])                     # iterator until a relative padding is handed in again
+            return ("ok",), []
         if kind == "close":                                # idempotent, never raises
             self.closed = True
             return ("ok",), []
@@ -123,7 +135,8 @@ class Model:
                 return ("raise", "ValueError"), []
             self.dur = op[1]
         elif kind == "pad":
-            self.pad = ref_resolve(op[1])                  # relative: resolved at the call
+            self.pad = ref_resolve(op[1], self.term)       # relative: resolved at the call, against the
+                                                           # terminal size of that moment
         elif kind == "args":
             if op[1] == "bad":
                 return ("raise", "IncompatibleRenderArgsError"), []
@@ -190,8 +203,22 @@ def lib():
         class OtherArgs(R.ArgsNamespace, render_cls=OtherR):
             foo: int = 0
 
+        DYNAMIC = R.FrameDuration.DYNAMIC
+
+        class DurR(ns.TextR):                # the duration setting shows in the output: glyphs shifted by dur_shift
+            def _render_(self, render_data, render_args):
+                f = super()._render_(render_data, render_args)
+                d = render_data[R.Renderable].duration
+                shift = dur_shift("DYN" if d is DYNAMIC else d)
+                if type(self).Args is None:      # TextR only reads its tag when the class itself owns the namespace
+                    shift += render_args[ns.TextR].tag
+                if not shift:
+                    return f
+                out = "".join(GLYPHS[(GLYPHS.index(c) + shift) % 52] if c in GLYPHS else c for c in f.render_output)
+                return R.Frame(f.number, f.duration, f.render_size, out)
+
         _lib.update(L=L, ns=ns, R=R, P=P, RI=L.render.RenderIterator, Size=L.geometry.Size, Seek=R.Seek,
-                    OtherR=OtherR,
+                    OtherR=OtherR, DurR=DurR,
                     args={"t1": R.RenderArgs(ns.TextR, ns.TextRArgs(1)), "t2": R.RenderArgs(ns.TextR, ns.TextRArgs(2)),
                           "base": R.RenderArgs(R.Renderable), "bad": R.RenderArgs(OtherR, OtherArgs(1))})
     return _lib
@@ -206,8 +233,13 @@ def make_pad(key):
 def ensure_world():
     """The one terminal all RenderIterator explorations run against."""
     tty = world.W.tty
-    if tty is None or (tty.cols, tty.rows) != TERM or world.W.stdout is not None:
-        world.setup("other", *TERM)
+    if tty is None or tty is not _tty.get("tty") or world.W.stdout is not None:
+        _tty["tty"] = world.setup("other", *TERM)
+    else:
+        tty.cols, tty.rows = TERM          # every history starts at TERM
+
+
+_tty = {}
 
 
 class Impl:
@@ -217,9 +249,9 @@ class Impl:
         n = cfg["n"]
         dur0 = R.FrameDuration.DYNAMIC if cfg["dur0"] == "DYN" else cfg["dur0"]
         if isinstance(n, str):
-            r = lb["ns"].make(R.FrameCount.INDEFINITE, SIZE0, dur0, stream_len=int(n[1:]))
+            r = lb["ns"].make(R.FrameCount.INDEFINITE, SIZE0, dur0, stream_len=int(n[1:]), cls=lb["DurR"])
         else:
-            r = lb["ns"].make(n, SIZE0, dur0)
+            r = lb["ns"].make(n, SIZE0, dur0, cls=lb["DurR"])
             r.seek(n - 1)                       # the renderable's own position must not matter
         self.r = r
         self.tell0 = r.tell()
@@ -239,7 +271,9 @@ class Impl:
                     return ("stop",), r.seen_seeks[k:]
                 res = ("frame", f.number, durkey(f.duration), tuple(f.render_size), f.render_output)
             else:
-                if kind == "close":
+                if kind == "term":
+                    world.W.tty.cols, world.W.tty.rows = op[1], op[2]
+                elif kind == "close":
                     it.close()
                 elif kind == "seek":
                     it.seek(op[1], lb["Seek"][op[2]])
@@ -305,7 +339,8 @@ def impl_canon(im):
     locals of the suspended generator, in a cache entry or in the render data namespace (state added by a
     changed implementation) is captured generically, so that it cannot be merged away."""
     it, r = im.it, im.r
-    base = (r.tell(), r.stream_pos, it.loop)
+    tty = world.W.tty
+    base = (r.tell(), r.stream_pos, it.loop, None if tty is None else (tty.cols, tty.rows))
     if it._closed:
         return ("closed",) + base
     fr = it._iterator.gi_frame
@@ -344,7 +379,10 @@ PROFILES = {
                  args=["t1", "t2", "base", "bad"], sizes=[(1, 1), (2, 1), (1, 3)]),
     "small": dict(durs=[7, "DYN", 0], pads=["E1010", "E2000", "Arel"], args=["t1", "bad"], sizes=[(1, 1)]),
     "tiny": dict(durs=[7, 0], pads=["E1010", "Arel"], args=["t1", "bad"], sizes=[(1, 1)]),
-    "dur": dict(durs=[1, 7, "DYN", 0], pads=["E0", "Arel"], args=["bad"], sizes=[]),
+    # 10 = the duration frame 0 reports under DYNAMIC (a cache keyed by the frame's duration instead of the setting)
+    "dur": dict(durs=[1, 7, 10, "DYN", 0], pads=["E0", "Arel"], args=["bad"], sizes=[]),
+    # terminal resizes between receptions of (equal) terminal-relative paddings
+    "resize": dict(durs=[0], pads=["E0", "Arel", "Arel2"], args=["bad"], sizes=[(1, 1)], terms=[TERM, TERM2]),
     "args": dict(durs=[0], pads=["E0", "E1010"], args=["t1", "t2", "base", "bad"], sizes=[]),
     "size": dict(durs=[0], pads=["E1010", "A32"], args=["bad"], sizes=[(1, 1), (2, 1), (2, 2)]),
     # every cached profile offers at least two paddings that differ from each other (a padded frame stored in
@@ -362,13 +400,14 @@ def alphabet(cfg):
     ops = [("next",), ("close",)] + seeks(n)
     ops += [("dur", d) for d in p["durs"]] + [("pad", k) for k in p["pads"]]
     ops += [("args", a) for a in p["args"]] + [("size", w, h) for (w, h) in p["sizes"]]
+    ops += [("term", c, r) for (c, r) in p.get("terms", [])]
     return ops
 
 
 def op_sig(op):
     """The part of an operation that goes into a violation signature (no free-running values)."""
     names = dict(next="next", close="close", seek="seek", dur="set_frame_duration", pad="set_padding",
-                 args="set_render_args", size="set_render_size")
+                 args="set_render_args", size="set_render_size", term="terminal-resize")
     arg = None
     if op[0] == "seek":
         arg = op[2]
